@@ -321,7 +321,9 @@ def gen_colarea(run):
     for rec in r.records:
         c1, c2, h, own = rec['c1'], rec['c2'], rec['h'], rec['own'] - 1
         ref = f'{repo.col_letters(c1)}1:{repo.col_letters(c2)}{h}'
-        cells = {(own, 4): f'=COLUMN({ref})', (own, 5): f'=COLUMN({ref})+1', (own, 6): f'=SUM(COLUMN({ref}),COLUMN({ref}))'}
+        cells = {(own, 4): f'=COLUMN({ref})', (own, 5): f'=COLUMN({ref})+1', (own, 6): f'=SUM(COLUMN({ref}),COLUMN({ref}))',
+                 # the formula's own cell lies INSIDE the area: COLUMN needs the position of the area, not the values of its cells
+                 (own, 8): '=COLUMN(A9:E9)'}
         beside = {}
         for k in range(1, 5):
             for row in (4, 5, 6):
@@ -329,7 +331,7 @@ def gen_colarea(run):
         cells.update(beside)
         total = sum(beside.values())
         cells[(9, 0)] = f'=SUM({repo.col_letters(own + 2)}5:{repo.col_letters(own + 5)}7)'
-        want = [((own, 4), rec['col']), ((own, 5), rec['col'] + 1), ((own, 6), 2 * rec['col'])] + sorted(beside.items()) + [((9, 0), total)]
+        want = [((own, 4), rec['col']), ((own, 5), rec['col'] + 1), ((own, 6), 2 * rec['col']), ((own, 8), 1)] + sorted(beside.items()) + [((9, 0), total)]
         # both translation orders: the whole workbook, and entry points (the reader of the neighbours first)
         excel = repo.mem_excel([('S', cells)])
         outs = {}
